@@ -279,3 +279,12 @@ R.macro('EXEC_SHAPE', ['e'], """forall('Fid', lambda i: implies(i in RUN(e), RUN
     and forall('Fut', lambda f: implies(f in PEND(e), f.id not in RUN(e)))""")
 for _m in ('_start_processes', 'submit', 'cancel', 'stop', 'wait'):
     R.contracts[f'{PE}.{_m}'].interrupt_exit = [C('EXEC_SHAPE(self)', 'INTERRUPTED INSIDE: at every interrupt instant of this method the maps are well-formed: running entries keyed by the id of their future, and no future both queued and running', serves=('C14',))]
+
+R.contracts[f'{PE}._consume_result_queue'].interrupt_exit = [
+    C('EXEC_SHAPE(self)', 'INTERRUPTED INSIDE: the maps are well-formed at every interrupt instant', serves=('C14',)),
+    C("forall('Fid', lambda i: implies(i in old(RUN(self)), ((i in RUN(self)) and (RUN(self)[i] == old(RUN(self))[i])) or old(RUN(self))[i][0].done))",
+      'INTERRUPTED INSIDE: no future is left in limbo -- each future that was running is still registered as running or is done '
+      '(results are applied by a helper thread precisely so that an interrupt cannot split "taken off the queue" from "set on the future")', serves=('C14', 'C11')),
+    C("forall('Fid', lambda i: implies((i in DELIVERED) and (i not in old(DELIVERED)) and (i in old(RUN(self))), old(RUN(self))[i][0].done))",
+      'INTERRUPTED INSIDE: every item taken off the result queue has been applied to its future (no received result is dropped)', serves=('C14', 'C01')),
+]
